@@ -183,10 +183,14 @@ def run(ctx):
     # synthetic definitions: the witness corpus of C11 (attribute permutations, ties, names
     # whose order differs from the order of the generated identifiers), type-checked only
     from . import rules_c11
-    for label, feats in (("f64", []), ("dec", ["fpdec"])):
-        cw, crate, bases = rules_c11.load_corpus(ctx, label, feats, ctx.seed)
-        ctx.configs.append(cw.config)
-        per_type(ctx, cw.config, cw, counts)
+    seeds = [ctx.seed] if ctx.tier != "thorough" else [ctx.seed + i for i in range(4)]
+    for sd in seeds:
+        for label, feats in (("f64", []), ("dec", ["fpdec"])):
+            cw, crate, bases = rules_c11.load_corpus(ctx, label, feats, sd)
+            if sd != ctx.seed:
+                cw.config = "%s-seed%d" % (cw.config, sd)
+            ctx.configs.append(cw.config)
+            per_type(ctx, cw.config, cw, counts)
     ctx.floor("corpus quantity types", len([t for t in counts["types"] if t[0].startswith("corpus")]), 2 * 30)
     ctx.floor("f64-all quantity types with declaration", len([t for t in counts["types"] if t[0] == "f64-all"]), 27)
     ctx.floor("dec-all quantity types with declaration", len([t for t in counts["types"] if t[0] == "dec-all"]), 24)
